@@ -172,6 +172,11 @@ class ClientAuthenticator:
                     b'ERROR ' + str(e).encode('unicode-escape'))
 
     def _auth_ERROR(self, line):
+        if self.unixFDNegotiating:
+            # the server will not pass file descriptors: go on without them
+            self.sendAuthMessage(b'BEGIN')
+            self.authenticated = True
+            return
         log.msg(
             'Authentication mechanism failed: '
             + line.decode("ascii", "replace")
